@@ -24,7 +24,7 @@
 From Coq Require Import ZArith List Bool Sorted Permutation.
 From V Require Import Model.ZMap Model.Quorum Model.HgImpl Model.HgReset Model.PeerSetSpec
   Proofs.ZMapFacts Proofs.AdmissionProofs Proofs.BlockInv Proofs.OrderProofs
-  Proofs.PeerSetProofs Proofs.ResetProofs Proofs.ResetServer Proofs.ResetMemo Proofs.ResetRound Proofs.ResetWitness Proofs.ResetRefute Proofs.ResetWitnessOk Proofs.ResetExample.
+  Proofs.PeerSetProofs Proofs.ResetProofs Proofs.ResetServer Proofs.ResetMemo Proofs.ResetRound Proofs.ResetWitness Proofs.ResetRefute Proofs.ResetWitnessOk Proofs.ResetExample Proofs.Static Proofs.ResetShape.
 Import ListNotations.
 Open Scope Z_scope.
 
@@ -186,6 +186,72 @@ Theorem C13_reset_values_are_servers : forall all ss g os ops rr f v b cores v1,
       zget (fe_id fe) (witness_memo v1) = Some (fe_wit fe).
 Proof. exact reset_values_are_servers. Qed.
 Print Assumptions C13_reset_values_are_servers.
+
+(** * Honest responders: [frame_shape] is a theorem (static membership) *)
+
+(* every frame cached by a node that any sequence of insertion attempts (events of a universe with
+   distinct identifiers, none carrying an accepted internal transaction = static membership) and
+   ProcessSigPool calls can reach has the shape: the identifiers of its root events and events are
+   pairwise distinct and non-negative, the rounds non-negative, the validator-set table sorted.
+   (roots of different participants are chains of different creators; a root lies strictly below,
+   in Lamport time, the first frame event of its participant) *)
+Theorem C13_served_frame_shape : forall g all self_ oracle_ ops R f,
+  ids_determine all -> no_accept all -> Forall (hop_ok all) ops ->
+  zget R (frames (hrun (init_hg self_ g oracle_) ops)) = Some f -> frame_shape f.
+Proof. exact (fun g all self_ oracle_ ops R f ID NA => served_frame_shape g all ID NA self_ oracle_ ops R f). Qed.
+Print Assumptions C13_served_frame_shape.
+
+(* in particular the frame of GetAnchorBlockWithFrame; the decision procedure the runner evaluates
+   on every fast-forward answers true *)
+Theorem C13_anchor_frame_shape : forall g all self_ oracle_ ops b f cores s',
+  ids_determine all -> no_accept all -> Forall (hop_ok all) ops -> self_ <> -1 ->
+  anchor_block_with_frame (hrun (init_hg self_ g oracle_) ops) = (Some (b, f, cores), s') ->
+  frame_shape f /\ frame_shapeb f = true.
+Proof.
+  exact (fun g all self_ oracle_ ops b f cores s' ID NA Ho Hs H =>
+    let FS := anchor_frame_shape g all ID NA self_ oracle_ ops b f cores s' Ho Hs H in
+    conj FS (frame_shapeb_complete f FS)).
+Qed.
+Print Assumptions C13_anchor_frame_shape.
+
+(* the reset-state theorems without any hypothesis on the frame: a node in ANY state that
+   fast-forwards from the answer of an honest peer *)
+Theorem C13_reset_state_served : forall g all ss os ops b f cores s' v v1,
+  ids_determine all -> no_accept all -> Forall (hop_ok all) ops -> ss <> -1 ->
+  anchor_block_with_frame (hrun (init_hg ss g os) ops) = (Some (b, f, cores), s') ->
+  core_fast_forward v b f cores = (true, v1) ->
+  blocks v1 = zset (b_index b) b zempty /\ last_block v1 = Z.max (b_index b) (-1) /\
+  frames v1 = zset (f_round f) f zempty /\
+  peersets v1 = f_peersets f /\ validators v1 = ff_validators f /\
+  lower_bound v1 = Some (b_rr b) /\ last_consensus v1 = Some (b_rr b) /\
+  undetermined v1 = [] /\ pending v1 = [] /\ anchor v1 = None /\ pending_loaded v1 = 0 /\
+  sigpool v1 = sigpool v /\ self_sigs v1 = self_sigs v /\ delivered v1 = delivered v /\ self v1 = self v.
+Proof.
+  exact (fun g all ss os ops b f cores s' v v1 ID NA Ho Hs H =>
+    C13_reset_state v b f cores v1 (anchor_frame_shape g all ID NA ss os ops b f cores s' Ho Hs H)).
+Qed.
+Print Assumptions C13_reset_state_served.
+
+Theorem C13_reset_dag_served : forall g all ss os ops b f cores s' v v1,
+  ids_determine all -> no_accept all -> Forall (hop_ok all) ops -> ss <> -1 ->
+  anchor_block_with_frame (hrun (init_hg ss g os) ops) = (Some (b, f, cores), s') ->
+  core_fast_forward v b f cores = (true, v1) -> reset_dag f cores v v1.
+Proof.
+  exact (fun g all ss os ops b f cores s' v v1 ID NA Ho Hs H =>
+    C13_reset_dag v b f cores v1 (anchor_frame_shape g all ID NA ss os ops b f cores s' Ho Hs H)).
+Qed.
+Print Assumptions C13_reset_dag_served.
+
+Theorem C13_reset_validators_served : forall g all ss os ops b f cores s' v v',
+  ids_determine all -> no_accept all -> Forall (hop_ok all) ops -> ss <> -1 ->
+  anchor_block_with_frame (hrun (init_hg ss g os) ops) = (Some (b, f, cores), s') ->
+  node_fast_forward v b f cores = (true, v') ->
+  (peersets v', validators v') = replay_step (f_peersets f, ff_validators f) (b_rr b) (b_itxs b).
+Proof.
+  exact (fun g all ss os ops b f cores s' v v' ID NA Ho Hs H =>
+    C13_reset_validators v b f cores v' (anchor_frame_shape g all ID NA ss os ops b f cores s' Ho Hs H)).
+Qed.
+Print Assumptions C13_reset_validators_served.
 
 (** * Continuity of rounds, witness flags, Lamport timestamps under [roots_sufficient] *)
 
